@@ -17,6 +17,9 @@
 (*   acc    1: the update was accepted (local coordinate may move, peer cached)  *)
 (*   same   1: local coordinate bit-for-bit as before the step                   *)
 (*   cache  <<c1..cNP>> ci = 1: GetCachedCoordinate(peer i) has an entry          *)
+(*   st     1: the COMPLETE client state (coordinate, origin, adjustment window,  *)
+(*          latency windows, reset counter) is bit-for-bit as before the step     *)
+(*   win    per peer, the client's latency window as sample ids (RttId)           *)
 (*   cs     1: the entry of p is exactly the coordinate p sent in this step      *)
 (*   cu     1: the entry of p (or its absence) is as before the step             *)
 (*   fin, dim, hmin, elo, ehi  1: the local coordinate is finite / has the        *)
@@ -25,23 +28,31 @@
 EXTENDS Integers, Sequences, FiniteSets, TLC
 
 CONSTANTS NP,        \* number of peers
-          MaxSteps
+          MaxSteps,
+          WinSize    \* LatencyFilterSize: the per-peer moving-median window of round-trip samples
 
 Peers == 1..NP
 CClasses == {"valid", "nan", "posinf", "neginf", "wrongdim", "huge", "negerr"}
 RClasses == {"neg", "zero", "ok", "big"}
+
+\* identity of the concrete round-trip sample the harness uses for (rc, rv): neg 0..3, zero 4, ok 5..10, big 11..14
+RttId(rc, rv) == CASE rc = "neg" -> rv % 4 [] rc = "zero" -> 4 [] rc = "ok" -> 5 + (rv % 6) [] rc = "big" -> 11 + (rv % 4)
+\* the window after one more accepted sample
+Push(w, id) == IF Len(w) < WinSize THEN Append(w, id) ELSE Tail(w) \o <<id>>
 
 ValidCoord(cc) == cc \in {"valid", "huge", "negerr"}     \* right dimension and every number finite
 InRange(rc)    == rc \in {"zero", "ok"}                   \* 0 <= rtt <= 10 s
 Accept(cc, rc) == ValidCoord(cc) /\ InRange(rc)
 
 VARIABLES cached,    \* model: peers with a cache entry
+          win,       \* model: per peer, the last WinSize ACCEPTED round-trip samples (ids)
           last, obs, n,
           \* monitor state, from logged actions and OBSERVED outputs only
           mneg,      \* some accepted observation so far carried a negative error
+          mwin,      \* per peer, the last WinSize samples of the observations OBSERVED as accepted
           bad
-mvars   == <<cached, last, obs, n>>
-monvars == <<mneg, bad>>
+mvars   == <<cached, win, last, obs, n>>
+monvars == <<mneg, mwin, bad>>
 vars    == <<mvars, monvars>>
 
 CacheTuple(S) == [i \in Peers |-> IF i \in S THEN 1 ELSE 0]
@@ -50,32 +61,41 @@ Observe(p, cc, rc) ==
   /\ n < MaxSteps /\ n' = n + 1
   /\ last' = [a |-> "obs", p |-> p, cc |-> cc, rc |-> rc, fv |-> 0, rv |-> 0]
   /\ cached' = IF Accept(cc, rc) THEN cached \cup {p} ELSE cached
+  /\ win' = IF Accept(cc, rc) THEN [win EXCEPT ![p] = Push(win[p], RttId(rc, 0))] ELSE win
   /\ obs' = [acc |-> IF Accept(cc, rc) THEN 1 ELSE 0, same |-> IF Accept(cc, rc) THEN 0 ELSE 1,
+             st |-> IF Accept(cc, rc) THEN 0 ELSE 1, win |-> win',
              cache |-> CacheTuple(cached'), cs |-> IF Accept(cc, rc) THEN 1 ELSE 0,
              cu |-> IF Accept(cc, rc) THEN 0 ELSE 1,
              fin |-> 1, dim |-> 1, hmin |-> 1, elo |-> 1, ehi |-> 1]
 
-ModelInit == cached = {} /\ last = [a |-> "init"] /\ obs = 0 /\ n = 0
+NoWin == [i \in Peers |-> <<>>]
+ModelInit == cached = {} /\ win = NoWin /\ last = [a |-> "init"] /\ obs = 0 /\ n = 0
 ModelNext == \E p \in Peers, cc \in CClasses, rc \in RClasses : Observe(p, cc, rc)
 
 ------------------------------------------------------------------------------
 (* property C20 as a monitor over (action, observation) *)
-StepClauses(act, o, neg) ==
+StepClauses(act, o, neg, w) ==
   (IF (o.acc = 1) <=> Accept(act.cc, act.rc) THEN {} ELSE
       IF o.acc = 1 THEN {"C20_invalid_accepted"} ELSE {"C20_valid_rejected"})
-  \cup (IF o.acc = 0 /\ (o.same # 1 \/ o.cu # 1) THEN {"C20_reject_changed_state"} ELSE {})
+  \* "rejected without changing anything": coordinate, cache entry AND the whole client state (origin, adjustment
+  \* window, per-peer latency windows, reset counter; o.st, read through a verif hook) are bit-for-bit as before
+  \cup (IF o.acc = 0 /\ (o.same # 1 \/ o.cu # 1 \/ o.st # 1) THEN {"C20_reject_changed_state"} ELSE {})
   \cup (IF o.acc = 0 /\ o.cu # 1 THEN {"C20_cached_without_accept"} ELSE {})
   \cup (IF o.acc = 1 /\ o.cs # 1 THEN {"C20_accepted_not_cached"} ELSE {})
   \cup (IF o.fin = 1 THEN {} ELSE {"C20_not_finite"})
   \cup (IF o.dim = 1 THEN {} ELSE {"C20_dimension"})
   \cup (IF o.fin = 1 /\ o.hmin # 1 THEN {"C20_height_below_min"} ELSE {})
   \cup (IF o.fin = 1 /\ ~neg /\ (o.elo # 1 \/ o.ehi # 1) THEN {"C20_error_bounds"} ELSE {})
+  \* the latency windows hold exactly the last WinSize ACCEPTED samples of each peer (nothing of a rejected one)
+  \cup (IF o.win = w THEN {} ELSE {"C20_window_not_accepted_samples"})
 
-MonInit == mneg = FALSE /\ bad = {}
+MonInit == mneg = FALSE /\ mwin = NoWin /\ bad = {}
 MonNext(act, o) ==
   LET neg == mneg \/ (o.acc = 1 /\ act.cc = "negerr")      \* peers reported only non-negative errors so far?
+      w   == IF o.acc = 1 THEN [mwin EXCEPT ![act.p] = Push(mwin[act.p], RttId(act.rc, act.rv))] ELSE mwin
   IN /\ mneg' = neg
-     /\ bad' = bad \cup StepClauses(act, o, neg)
+     /\ mwin' = w
+     /\ bad' = bad \cup StepClauses(act, o, neg, w)
 
 Init == ModelInit /\ MonInit
 Next == ModelNext /\ MonNext(last', obs')
